@@ -103,21 +103,35 @@ def countSub (pat : Str) : Nat → Str → Nat
     One pass over the tokens marks those text tokens (`t…` becomes `m…`).  Bare text is only generated next to text,
     elements, tuples, `Vec`s and islands (after a `Suspend` the position depends on whether it was ready: C05's
     `suspend-position`), so every other node counts as `NextChild` here. -/
-def markTexts : Bool → List Char → List String → List String
+/-- `io`: in-order mode; `done0`: the futures completed before rendering; `asReady`: place the separators as the
+    resolved render does.  A `Suspend` outside every asynchronous node (`s<k>[`, frames `p l e r` only) is rendered
+    where it stands: the position flows into its content; if its future has completed (`r`) the position flows out
+    again, if it is still pending in-order streaming continues with `Position::NextChild` whatever the content ends
+    in (`s`) — F-C05-6 / C07 class `suspend-position`: a text node that follows gets no `<!>`. -/
+def markTexts (io asReady : Bool) (done0 : List Nat) : Bool → List Char → List String → List String
   | _, _, [] => []
   | afterText, stack, t :: ts =>
     let k := t.front
+    let static := stack.all fun c => c == 'p' || c == 'l' || c == 'e' || c == 'r'
     if t == "]" then
       match stack with
-      | 'p' :: st => "]" :: markTexts afterText st ts      -- tuple / island: position passes through
-      | _ :: st => "]" :: markTexts false st ts            -- element, Vec, everything asynchronous: NextChild
-      | [] => "]" :: markTexts false [] ts
+      | 'p' :: st => "]" :: markTexts io asReady done0 afterText st ts   -- tuple / island: position passes through
+      | 'r' :: st => "]" :: markTexts io asReady done0 afterText st ts   -- a Suspend that was ready: rendered in place
+      | _ :: st => "]" :: markTexts io asReady done0 false st ts         -- element, Vec, everything asynchronous: NextChild
+      | [] => "]" :: markTexts io asReady done0 false [] ts
     else if k == 't' then
-      (if afterText then "m" ++ (t.drop 1).toString else t) :: markTexts true stack ts
-    else if t == "q[" || t == "I[" || t == "C[" then t :: markTexts afterText ('p' :: stack) ts
-    else if t == "l[" then t :: markTexts afterText ('l' :: stack) ts   -- a Vec passes the position to its items
-    else if t.endsWith "[" then t :: markTexts false ('x' :: stack) ts
-    else t :: markTexts false stack ts
+      (if afterText then "m" ++ (t.drop 1).toString else t) :: markTexts io asReady done0 true stack ts
+    else if t == "q[" || t == "I[" || t == "C[" then t :: markTexts io asReady done0 afterText ('p' :: stack) ts
+    else if t == "l[" then t :: markTexts io asReady done0 afterText ('l' :: stack) ts   -- a Vec passes the position to its items
+    else if k == 'e' && t.endsWith "[" then t :: markTexts io asReady done0 false ('e' :: stack) ts
+    else if io && static && k == 's' && t.endsWith "[" then
+      match ((t.drop 1).dropEnd 1).toString.toNat? with
+      | some f =>
+        if asReady || done0.contains f then t :: markTexts io asReady done0 afterText ('r' :: stack) ts
+        else t :: markTexts io asReady done0 afterText ('s' :: stack) ts
+      | none => t :: markTexts io asReady done0 false ('x' :: stack) ts
+    else if t.endsWith "[" then t :: markTexts io asReady done0 false ('x' :: stack) ts
+    else t :: markTexts io asReady done0 false stack ts
 
 def parseViews (mk : Nat) (nonce : Option Str) : Nat → Bool → List String → Option (List View × List String)
   | 0, _, _ => none
@@ -298,18 +312,25 @@ def step (st : St) (line : String) : St × String :=
     | none => (st, "bad-op")
     | some (ooo, branch, nm) =>
     let mk := if !branch then 0 else if ooo then 2 else 1
-    match parseNats ',' d0, parseViews mk (if nm then some "NONCE".toList else none) (toks.length + 2) false (markTexts false [] toks) with
+    let d0l := (parseNats ',' d0).getD []
+    let nonceV := if nm then some "NONCE".toList else none
+    -- the reference document: separators as the resolved render places them
+    let refDoc : Option Str := match parseViews mk nonceV (toks.length + 2) false (markTexts (!ooo) true d0l false [] toks) with
+      | some (vs, []) => some (viewDoc (View.seq vs))
+      | _ => none
+    match parseNats ',' d0, parseViews mk nonceV (toks.length + 2) false (markTexts (!ooo) false d0l false [] toks) with
     | some done0, some (vs, []) =>
       let v := View.seq (if vs.isEmpty then wrapIf (mk == 1) [View.raw "<!>".toList] else vs)
-      let cls := if noLate .top v then "unclassified" else "sync-read-late"
+      let ref := if vs.isEmpty then viewDoc v else refDoc.getD (viewDoc v)
+      let cls := if !noLate .top v then "sync-read-late" else if ref != viewDoc v then "suspend-position" else "unclassified"
       -- F-C07-7: text / elements / tuples / Vecs / islands only: the out-of-order branching stream is not
       -- `to_html_branching()` of the same view (`AnyView` marks itself on the synchronous and the in-order path only)
       let syncOnly := toks.all fun t => t == "]" || t.front == 't' || t.front == 'e' || t == "q[" || t == "l[" || t == "I[" || t == "C["
-      ({ run := some (startStream ooo done0 (compile ooo .top v)), ooo := ooo, ref := viewDoc v, cls := cls,
+      ({ run := some (startStream ooo done0 (compile ooo .top v)), ooo := ooo, ref := ref, cls := cls,
          branch := branch, nonceMode := nm, oooPlainB := mk == 2 && syncOnly }, "ok")
     | _, _ => (st, "bad-op")
   | "viewf" :: mode :: d0 :: toks =>
-    match parseNats ',' d0, parseViews 0 none (toks.length + 2) false (markTexts false [] toks) with
+    match parseNats ',' d0, parseViews 0 none (toks.length + 2) false (markTexts false false [] false [] toks) with
     | some done0, some (vs, []) =>
       if mode == "io" || mode == "ooo" then
         let ooo := mode == "ooo"
